@@ -15,6 +15,7 @@ from sc3.base.functions import Function
 from sc3.base.stream import Routine, stream
 from sc3.seq.patterns.listpatterns import Pseq
 from sc3.seq.patterns.filterpatterns import Pn
+from sc3.seq.patterns.funcpatterns import Pfunc
 from sc3.synth.ugen import ChannelList
 from sc3.base.operand import Operand
 from sc3.seq.event import Rest
@@ -318,6 +319,51 @@ def main():
         check('default_second_argument', 'lift_binop_hom', 'bi.round(f)(x), f.round()(x), round(f)(x), f.trunc()(x), f.roundup()(x), f.max()(x)',
               lambda: (bi.round(f)(x), f.round()(x), round(f)(x), bi.trunc(f)(x), f.trunc()(x), f.roundup()(x), f.max()(x)),
               (bi.round(fx, 1), bi.round(fx, 1), bi.round(fx, 1), bi.trunc(fx, 1), bi.trunc(fx, 1), bi.roundup(fx, 1), bi.max(fx, 0)))
+        # ChannelList METHOD forms (clip/fold/wrap/blend are overridden: flop over the channels and every argument):
+        # as many channels as the longest of receiver and arguments, each taken with wrap-around
+        cx = [rng.randint(-9, 9) for _ in range(rng.randint(1, 4))]
+        cl = [rng.randint(-9, 0) for _ in range(rng.randint(1, 4))]
+        ch = [rng.randint(1, 9) for _ in range(rng.randint(1, 4))]
+        mlen = max(len(cx), len(cl), len(ch))
+        check('chan_method_wrap', 'chan_method_narop_wrap_law', 'list(ChannelList(%s).%s(%s, %s))' % (cx, n3, cl, ch),
+              lambda: list(getattr(ChannelList(cx), n3)(cl, ch)),
+              [op3(cx[i % len(cx)], cl[i % len(cl)], ch[i % len(ch)]) for i in range(mlen)])
+        check('chan_method_scalar_args', 'chan_method_narop_wrap_law', 'list(ChannelList(%s).%s(%d, %s))' % (cx, n3, cl[0], ch),
+              lambda: list(getattr(ChannelList(cx), n3)(cl[0], ChannelList(ch))),
+              [op3(cx[i % len(cx)], cl[0], ch[i % len(ch)]) for i in range(max(len(cx), len(ch)))])
+        check('chan_method_defaults', 'chan_method_narop_wrap_law', 'list(ChannelList(%s).%s()), .blend(%s)' % (cx, n3, ch),
+              lambda: (list(getattr(ChannelList(cx), n3)()), list(ChannelList(cx).blend(ch))),
+              ([op3(v, 0.0, 1.0) for v in cx], [bi.blend(cx[i % len(cx)], ch[i % len(ch)], 0.5) for i in range(max(len(cx), len(ch)))]))
+        check('chan_method_equals_builtin_form', 'chan_method_narop_wrap_law', 'ChannelList(%s).%s(%d, %d) == bi.%s(ChannelList, ..)' % (cx, n3, cl[0], ch[0], n3),
+              lambda: list(getattr(ChannelList(cx), n3)(cl[0], ch[0])), list(op3(ChannelList(cx), cl[0], ch[0])))
+
+        # next(inval): the value passed to next() reaches every operand, for every element, direct or embedded
+        invs = [rng.randint(-9, 9) for _ in range(rng.randint(2, 6))]
+        kk, cc2 = nz(), rng.randint(-5, 5)
+        mk_id = lambda: Pfunc(lambda v: v)
+        mk_lin = lambda: Pfunc(lambda v: kk * v + cc2)
+        padn = [rng.randint(-3, 3) for _ in range(rng.randint(0, 2))]
+        wraps = [('%s', lambda c: c, 0), ('Pseq([%s])', lambda c: Pseq([c]), 0), ('Pn(%s, 1)', lambda c: Pn(c, 1), 0),
+                 ('Pseq([Pseq(%s), %%s])' % padn if padn else 'Pseq([%s])', (lambda c: Pseq([Pseq(padn), c])) if padn else (lambda c: Pseq([c])), len(padn))]
+        wt, wf, woff = rng.choice(wraps)
+
+        def feed(p):
+            st = stream(p)
+            return [st.next(v) for v in invs]
+        tail = invs[woff:]
+        pre = padn[:len(invs)] if woff else []
+        check('inval_unop', 'inval_unop_embedded', 'feed %s to %s, ident = Pfunc(lambda v: v)' % (invs, wt % '(-ident)'),
+              lambda: feed(wf(-mk_id())), pre + [-v for v in tail])
+        if not (name in ('//', 'bi.mod') and any(kk * v + cc2 == 0 or v == 0 for v in invs)):
+            check('inval_binop', 'inval_binop', 'feed %s to %s, lin = Pfunc(lambda v: %d*v+%d)' % (invs, wt % ('(ident %s lin)' % name), kk, cc2),
+                  lambda: feed(wf(op(mk_id(), mk_lin()))), pre + [op(v, kk * v + cc2) for v in tail])
+            check('inval_binop_reflected', 'inval_binop', 'feed %s to %s' % (invs, wt % ('(%d %s lin)' % (n, name))),
+                  lambda: feed(wf(op(n, mk_lin()))), pre + [op(n, kk * v + cc2) for v in tail])
+        check('inval_narop', 'inval_narop_embedded', 'feed %s to %s' % (invs, wt % ('ident.%s(%d, lin)' % (n3, lo))),
+              lambda: feed(wf(getattr(mk_id(), n3)(lo, mk_lin()))), pre + [op3(v, lo, kk * v + cc2) for v in tail])
+        check('inval_stream_classes', 'inval_binop', 'feed %s to (stream(ident) - stream(lin)), (-stream(ident))' % invs,
+              lambda: (feed(stream(mk_id()) - stream(mk_lin())), feed(-stream(mk_id()))),
+              ([v - (kk * v + cc2) for v in invs], [-v for v in invs]))
     # keep one (the first) example per law
     seen, out = set(), []
     for b in bad:
